@@ -484,6 +484,10 @@ class GenAudit:
             self.viol("C05", "sanitise", f"generated molecule does not pass sanitisation: {exc!r}")
             return
         ledger = list(result._gb_inst)
+        if any(u not in self.inst for (u, _, _) in ledger):
+            # (e.g. the product was started before this audit began: two molecules built inside one observed call)
+            self.viol("C05", "untracked_instance", "the product contains a residue instance whose creation was not part of this generation")
+            return
         natoms = mol.GetNumAtoms()
         # partition
         cover = [None] * natoms
